@@ -187,8 +187,8 @@ def r6(ctx):
         return out
     def assigns(name, val):
         return [nid for nid, d, rhs, op, lhs in fn.assignments() if d == name and rhs is not None and fn.val(rhs) == val]
-    rdy = '(state == #%d)' % inv['bs_ready']
-    skp = '(state == #%d)' % inv['bs_skip']
+    rdy = '(%s == #%d)' % (fn.P(0), inv['bs_ready'])
+    skp = '(%s == #%d)' % (fn.P(0), inv['bs_skip'])
     checks = [('m_command.clear()', clears('this.m_command')), ('m_response.clear()', clears('this.m_response')),
               ('m_crc = 0', assigns('this.m_crc', 0)), ('m_crcValid = false', assigns('this.m_crcValid', 0)),
               ('m_nextSendPos = 0', assigns('this.m_nextSendPos', 0)), ('m_currentAnswering = false', assigns('this.m_currentAnswering', 0))]
@@ -216,8 +216,8 @@ def r6(ctx):
             fn.reaches_point(fn.entry, (fn.block_of(r), 0), set(esc)) for r in fn.all('ReturnStmt')))
     ctx.ob('C01.R6', fn, esc[0] if esc else fn.body, ok, 'm_escape = 0 on every path', 'pending escape cleared before every return: %s' % ok)
     # CRC reset when entering a response part
-    rr = '(state == #%d)' % inv['bs_recvRes']
-    sr = '(state == #%d)' % inv['bs_sendRes']
+    rr = '(%s == #%d)' % (fn.P(0), inv['bs_recvRes'])
+    sr = '(%s == #%d)' % (fn.P(0), inv['bs_sendRes'])
     crc0 = assigns('this.m_crc', 0)
     ok = any(fn.needs_one_of(c, [(rr, True), (sr, True)], frm=sp[0]) for c in crc0)
     ctx.ob('C01.R6', fn, sets[0], ok, 'm_crc = 0 entering recvRes/sendRes', 'found: %s' % ok)
@@ -230,7 +230,9 @@ def r8(ctx):
     fb = ctx.fb
     fn = fb.fn('ebusd::PlainDevice::recv')
     ctx.touch(fn)
-    stores = [nid for nid, d, rhs, op, lhs in fn.assignments() if lhs is not None and fn.key(lhs) == '*value']
+    vname = fn.P(1)
+    lname = fn.outarg('::read', 2) or 'len'
+    stores = [nid for nid, d, rhs, op, lhs in fn.assignments() if lhs is not None and fn.key(lhs) == '*' + vname]
     cons = [c for c in fn.all('CXXMemberCallExpr') if (fn.nodes[c].get('callee') or '').endswith('::readConsumed')]
     if not stores or not cons:
         raise AnalysisBroken('C01.R8: store to *value or readConsumed not found in PlainDevice::recv')
@@ -251,16 +253,16 @@ def r8(ctx):
         if rhs is not None and fn.val(rhs) == cont and fn.nodes.get(fn.strip(rhs), {}).get('rk') == 'enumerator':
             found = True
             atoms = set((a[0], a[1]) for a in fn.atoms(nid))
-            ok = ('(len <= #1)', False) in atoms or ('(len < #2)', False) in atoms
+            ok = ('(%s <= #1)' % lname, False) in atoms or ('(%s < #2)' % lname, False) in atoms
             ctx.ob('C01.R8', fn, nid, ok, 'RESULT_CONTINUE condition', 'RESULT_CONTINUE produced under %s' %
-                   sorted(a for a in atoms if 'len' in a[0]))
+                   sorted(a for a in atoms if lname in a[0]))
     for r in fn.all('ReturnStmt'):
         rv = fn.nodes[r].get('val')
         if rv is not None and fn.val(rv) == cont:
             found = True
             atoms = set((a[0], a[1]) for a in fn.atoms(r))
-            ok = ('(len <= #1)', False) in atoms
-            ctx.ob('C01.R8', fn, r, ok, 'RESULT_CONTINUE condition', 'returned under %s' % sorted(a for a in atoms if 'len' in a[0]))
+            ok = ('(%s <= #1)' % lname, False) in atoms
+            ctx.ob('C01.R8', fn, r, ok, 'RESULT_CONTINUE condition', 'returned under %s' % sorted(a for a in atoms if lname in a[0]))
     if not found:
         ctx.ob('C01.R8', fn, fn.body, False, 'RESULT_CONTINUE condition', 'RESULT_CONTINUE is never produced: buffered symbols '
                'would wait for the next timeout')
@@ -280,7 +282,7 @@ def r7(ctx):
         raise AnalysisBroken('C01.R7: SYN transition to ready not found')
     ss = fb.fn(A.SS)
     # does setState clear m_crc for ready even when state == m_state?
-    same = ss.edges_with_atom('(state == this.m_state)', True)
+    same = ss.edges_with_atom('(%s == this.m_state)' % ss.P(0), True)
     crc0 = set(nid for nid, d, rhs, op, lhs in ss.assignments() if d == 'this.m_crc' and rhs is not None and ss.val(rhs) == 0)
     in_setstate = bool(same) and all(not ss.reaches_point(ss.blocks[b].succs[j], (ss.exit, 0), crc0) for b, j in same)
     for e in syn_edges:
